@@ -172,6 +172,26 @@ CHECKS['C04'] = dict(
     assumptions=['FAILED answers (none expected without faults) make a round inconclusive, not a violation'],
 )
 
+CHECKS['C07'] = dict(
+    pkg='c07', level='exploration',
+    technique='property-based testing: permission configurations generated from a regular-expression AST grammar, decided by an own AST matcher and first-bearing-item evaluator (no regexp on the oracle side); service-level requests with state-unchanged oracle',
+    level_text=('Part A: configurations (1-3 clients x 1-5 ordered entries with wallet/account patterns built from literals, classes, dot, concatenation, alternation, groups, '
+                '* + ?, own ^(...)$ anchors; ordered operation lists of All/None/op/~op in mixed case) and names sampled from the patterns and then mutated (append/prepend a '
+                'character, flip case, drop a character) are put to the real static checker; every answer must equal the reference evaluator of the statement. '
+                'Part B: over real wallets the signer (generic/attest/propose, single and batch, by name and by public key, service and gRPC handler), lister, account and wallet '
+                'lock/unlock are called under generated configurations: a position the reference refuses must not be served and must leave the slashing-protection record and '
+                'the lock state unchanged.'),
+    level_note=('Only the refusal direction is asserted in part B (the statement says "only if"). User-written anchors are generated only as ^(...)$ around the whole pattern; a bare ^a|b$ is '
+                'excluded because the statement does not say how it is to be read. Create-account is exercised by the key-generation checks (C12/C18).'),
+    parts=[part('TestC07A', 30000, 150000, tshards=8), part('TestC07B', 700, 5000, qshards=2)],
+    rule=('part A: non-trivial iff some query matched at least one but not the only entry of its client (ordering, near misses and negative items matter); part B: non-trivial iff a '
+          'slashable request (attest/propose) that would have advanced stored state was refused; distinct = sha256 of the case JSON'),
+    essential=['a:queries-model-allows', 'a:queries-model-denies', 'b:refused-positions', 'b:refused-positions-addressed-by-public-key', 'b:allowed-and-served-positions',
+               'b:refused-slashable-requests-that-would-have-advanced-state'] + ['b:op-' + o for o in ['sign', 'multisign', 'attest', 'attests', 'propose', 'list', 'lock-account',
+               'unlock-account', 'lock-wallet', 'unlock-wallet']],
+    assumptions=['names and patterns over the alphabet {W,w,a,b,1,2,0,space}: ASCII only, so Unicode case folding plays no part'],
+)
+
 ENGINES = [
     dict(name='rapid-harness', path='/verif/harness', kind_free_text='Go test module (pgregory.net/rapid v1.3.0) compiled against /repo with -tags verif; driver /verif/check shards by seed, merges coverage, writes evidence',
          serves_properties=sorted(CHECKS)),
